@@ -134,6 +134,37 @@ def run(ctx):
 
         res.rules["F-SEL"] = "a HyMMSBM method that receives the size selection `d` hands it to every method of the class that takes `d` (sibling agreement: C, C', C'' and kappa are evaluated for the same sizes)"
         check_same_named_forwarding(ctx, res, "HyMMSBM", ("d",))
+    # ---- B-ALLSIZES: `d="all"` stands for the sizes 2..max_hye_size, both ends included: np.arange(2, max_hye_size + 1)
+    with res.guard("B-ALLSIZES"):
+        res.rules["B-ALLSIZES"] = "`d='all'` expands to np.arange(2, max_hye_size + 1): the exclusive end of the range is one past the largest size (a cap at N is N + 1)"
+        dv = ctx.view("HyMMSBM._dimensions_to_numpy")
+        n_ar = 0
+        for n in walk_no_nested(dv.fi.node):
+            if not (isinstance(n, ast.Call) and norm(n.func) in ("np.arange", "numpy.arange", "range") and len(n.args) >= 2):
+                continue
+            n_ar += 1
+            lo, hi = n.args[0], n.args[1]
+            exprs = [hi]
+            if isinstance(hi, ast.Name):
+                exprs = [a_.value for a_ in walk_no_nested(dv.fi.node) if isinstance(a_, ast.Assign) and any(isinstance(t, ast.Name) and t.id == hi.id for t in a_.targets)] or [hi]
+            verdict, why = "unknown", "the upper end of the size range was not recognised"
+            texts = [norm(e) for e in exprs]
+            if all(t in ("self.max_hye_size + 1", "1 + self.max_hye_size") for t in texts):
+                verdict, why = "ok", ""
+            for e in exprs:
+                t = norm(e)
+                if t in ("self.max_hye_size", "self.max_hye_size - 1"):
+                    verdict, why = "violation", f"the range ends at `{t}` (exclusive): the largest size is left out of `d='all'`"
+                for c in ast.walk(e):
+                    if isinstance(c, ast.Call) and isinstance(c.func, ast.Name) and c.func.id == "min":
+                        for a_ in c.args:
+                            if norm(a_) in ("self.N", "N", "self.N()", "len(self.u)", "self.u.shape[0]"):
+                                verdict, why = "violation", f"the exclusive end of the size range is capped at `{norm(a_)}`: when max_hye_size equals the number of nodes the size-N term (the hyperedge of all nodes) is dropped from `d='all'` - the cap has to be N + 1"
+            if not (isinstance(lo, ast.Constant) and lo.value == 2):
+                verdict, why = ("violation", f"the sizes start at `{norm(lo)}`, not at 2") if isinstance(lo, ast.Constant) else (verdict, why)
+            res.add("B-ALLSIZES", dv.fi.short, norm(n), "2..max_hye_size", verdict, why, loc(dv.fi, n))
+        if n_ar == 0:
+            res.unknown("B-ALLSIZES", dv.fi.short, "np.arange(2, self.max_hye_size + 1)", "2..max_hye_size", "the expansion of d='all' was not recognised", loc(dv.fi, dv.fi.node))
     with res.guard("N-VECTYPE"):
         from ..lints import check_vectorize_otypes
 
